@@ -1,0 +1,6 @@
+//go:build !verif
+
+// Command goblverif does nothing unless built with the "verif" tag.
+package main
+
+func main() {}
